@@ -597,6 +597,32 @@ public:
           } crab::outs()
           << "\n");
 
+      // The backward analysis only visits the blocks from which the
+      // exit block is reachable. If an assertion is located in any
+      // other block (e.g., in an infinite loop) then its failures are
+      // not part of the preconditions, so the preconditions cannot be
+      // used to refine the forward analysis: the refined invariants
+      // would exclude the executions that violate that assertion.
+      {
+        std::set<basic_block_label_t> visited_by_backward;
+        for (auto &kv : boost::make_iterator_range(B->begin(), B->end())) {
+          visited_by_backward.insert(kv.first);
+        }
+        bool unvisited_assertion = false;
+        for (auto &kv : m_unproven_assertions) {
+          if (visited_by_backward.count(kv.first) == 0) {
+            unvisited_assertion = true;
+            break;
+          }
+        }
+        if (unvisited_assertion) {
+          CRAB_LOG("backward",
+                   crab::outs() << "Skipped backward refinement: some "
+                                << "assertion cannot reach the exit block.\n");
+          break;
+        }
+      }
+
       crab::CrabStats::resume("CombinedForwardBackward.CheckRefinement");
       assumption_map_t new_refined_assumptions;
       bool more_refinement = false;
